@@ -151,12 +151,18 @@ class Gate:
         self.open = threading.Event()
         self.waiting = 0
         self.lock = threading.Lock()
+        self.job_of_thread = {}       # thread ident -> job name
+        self.released = set()         # job names let through individually
 
     def __call__(self, label, method):
         if method in ('set_power', 'set_color'):
             with self.lock:
                 self.waiting += 1
-            self.open.wait(20)
+            name = self.job_of_thread.get(threading.get_ident())
+            t0 = time.time()
+            while not self.open.wait(0.002) and name not in self.released \
+                    and time.time() - t0 < 20:
+                pass
             with self.lock:
                 self.waiting -= 1
 
@@ -245,8 +251,12 @@ def template_vars(name):
 
 
 class Scenario:
-    def __init__(self, ctx, manifest, workdir, replay):
+    def __init__(self, ctx, manifest, workdir, replay, responsive=False):
         self.ctx, self.manifest, self.replay = ctx, manifest, replay
+        # responsive: a job that is asked to stop gets its pending device
+        # request answered at once and winds down while the handler is still
+        # running (otherwise it stays parked until the next RELEASE)
+        self.responsive = responsive
         self.root = workdir
         self.bad = False
         shutil.rmtree(workdir, ignore_errors=True)
@@ -284,12 +294,19 @@ class Scenario:
         orig_add, orig_spawn = self.jc.add_job, self.jc.spawn_job
 
         def watch(job, name):
-            orig = job.request_stop
+            orig, orig_exec = job.request_stop, job.execute
 
             def request_stop():
                 jc.stops.append(name)
-                return orig()
-            job.request_stop = request_stop
+                r = orig()
+                if jc.responsive:
+                    jc.gate.released.add(name)
+                return r
+
+            def execute():
+                jc.gate.job_of_thread[threading.get_ident()] = name
+                return orig_exec()
+            job.request_stop, job.execute = request_stop, execute
 
         def add_job(job, name=None):
             jc.jobs.append(('queue', name, job))
@@ -487,8 +504,11 @@ class Scenario:
         elif handler == 'stop_current':
             want = [current_before.name] if current_before is not None and \
                 current_before.is_running() else []
+            # (an agent that was current but whose thread had not started or
+            # had just ended may or may not be asked to stop)
             if sorted(new_stops) != sorted(want) and not (
-                    current_before is not None and not new_stops):
+                    current_before is not None and
+                    new_stops in ([], [current_before.name])):
                 self.fail('stop-current:wrong-target', 'stopped {} expected {}'
                           .format(new_stops, want))
                 return
@@ -504,6 +524,16 @@ class Scenario:
             if self.jc.get_queued():
                 self.fail('stop-all:queue-not-empty', '{} still queued'.format(
                     [a.name for a in self.jc.get_queued()]))
+                return
+            self.settle()
+            survivors = [a.name for a in [self.jc.get_current()]
+                         + list(self.jc._background.values())
+                         if a is not None and a.is_running()
+                         and a.name not in self.stops]
+            if survivors:
+                self.fail('stop-all:something-starts-afterwards',
+                          '{} running after stop-all without having been '
+                          'asked to stop'.format(survivors))
                 return
             if exc is not None:
                 ctx.count('stop_all_raised_after_acting')
@@ -556,11 +586,13 @@ def run_case(ctx, i, workdir):
             seq.append('RELEASE')
         if rng.random() < 0.25:
             seq.append('RELEASE')
-    replay = {'manifest': manifest, 'requests': seq}
+    responsive = rng.random() < 0.4
+    replay = {'manifest': manifest, 'requests': seq, 'responsive': responsive}
     ctx.case('W:{}:{}'.format(json.dumps(manifest, sort_keys=True), seq),
              nontrivial=any(s.startswith('/') and s[1:] in paths for s in seq))
     try:
-        sc = Scenario(ctx, manifest, workdir, replay)
+        sc = Scenario(ctx, manifest, workdir, replay, responsive)
+        ctx.count('sessions_responsive' if responsive else 'sessions_parked')
     except Exception as ex:
         ctx.violation('manifest:load-raises:' + type(ex).__name__,
                       '{!r} | {}'.format(ex, json.dumps(manifest)[:300]), replay)
@@ -632,7 +664,7 @@ def replay(doc):
     r = doc['replay']
     ctx = Ctx('C20', 'quick', 0, 0, 1)
     workdir = os.path.join(env.VERIF, '.work', 'c20-replay')
-    sc = Scenario(ctx, r['manifest'], workdir, r)
+    sc = Scenario(ctx, r['manifest'], workdir, r, r.get('responsive', False))
     sc.started_entries = []
     try:
         for step in r['requests']:
